@@ -373,11 +373,12 @@ def run(ctx) -> None:
     ctx.rule("C18.open", "finite domain: open_exchanges number/boolean handling", floor=2)
     ctx.rule("C18.bigm", "T5: one big-M over all exchange bounds", floor=1)
     ctx.rule("C18.capture", "T6: growth constraint built from the objective before it is replaced", floor=1)
-    ctx.rule("C18.formulation", "formulation: minimal_medium poses the documented problem and reads the medium off the answer (oracle evaluation)", floor=8)
+    ctx.rule("C18.formulation", "formulation: minimal_medium poses the documented problem and reads the medium off the answer (oracle evaluation)", floor=10)
     try:
         medform.check_minimal_medium(ctx, "C18.formulation")
     except AnalysisError as exc:
         ctx.defer(str(exc))
+    ctx.guard(medform.check_medium_property, ctx, "C18.formulation")
     check_convention(ctx)
     check_none(ctx)
     check_open(ctx)
